@@ -54,11 +54,14 @@ static std::string Terminal(bool threw, long long lines, long long size) {
 template <typename ReadFn>
 static std::string Observe(const char *handler, ReadFn read, long long lines, long long size) {
   if (!strcmp(handler, "rec")) {
-    vrec::Recorder rec;
+    // no reader can make more notifications than its input has bytes: beyond ~100 log bytes per input byte the read
+    // is running away (repeating a segment without end) - recorded as such, never as an ordinary exception
+    vrec::Recorder rec(vrec::HexNum, nullptr, (size_t)(100 * size + 65536));
     try {
       read(rec);
     } catch (...) {
-      vrec::RecordThrow(rec, lines, size);
+      if (rec.truncated) { rec.truncated = false; rec.max_bytes = (size_t)-1; rec.Begin("Runaway"); rec.End(); }
+      else vrec::RecordThrow(rec, lines, size);
     }
     return rec.evs;
   }
